@@ -239,3 +239,9 @@ Fixpoint go_fmt1 (f arg : list N) : list N :=
   | c :: r => c :: go_fmt1 r arg
   | [] => []
   end.
+
+(* a && b, a || b when evaluating b can panic: b is evaluated only if needed *)
+Definition go_andalso {S R} (a : bool) (rhs : (bool -> res S R) -> res S R) (k : bool -> res S R) : res S R :=
+  if a then rhs k else k false.
+Definition go_orelse {S R} (a : bool) (rhs : (bool -> res S R) -> res S R) (k : bool -> res S R) : res S R :=
+  if a then k true else rhs k.
